@@ -462,6 +462,8 @@ SCENARIOS = [
     # ---- ia32 dumps taken in process context: the root is the crashing task's, not swapper_pg_dir
     ("ia32-task-pgd-option-pae-unknown-lookalike", "gen_ia32_linux",
      dict(vsrc="vmap_area_list", pae=False, rootsrc="opt", rootopt_as=G.KPHYS, phys_bits_opt=False, task=True, lookalike=True)),
+    ("ia32-task-pgd-option-pae-unknown-lookalike-to-phys-0", "gen_ia32_linux",
+     dict(vsrc="vmap_area_list", pae=False, rootsrc="opt", rootopt_as=G.MACHPHYS, phys_bits_opt=False, task=True, lookalike=True, look_word=1)),
     ("ia32-task-pgd-cr3-vmlist-lookalike", "gen_ia32_linux",
      dict(vsrc="vmlist", pae=False, rootsrc="cr3+sym", phys_bits_opt=False, task=True, lookalike=True)),
     ("ia32-pae-task-pdpt-cr3-unaligned-stale-neighbour", "gen_ia32_linux",
@@ -542,6 +544,9 @@ def known_key(img, msg, obs_line):
         # second form of the same finding: with a KVADDR root (swapper_pg_dir / rootpgt=KVADDR) and no cr3 the root itself is
         # only reachable through the direct map that set_linux_directmap() has dropped: nothing translates
         return "ia32-rdirect-without-vmalloc-start"
+    if img.desc.get("look_zero") and getattr(img, "pgt_fmt", None) == "ia32_pae" and not img.desc.get("pae"):
+        # check_pae took a non-PAE hierarchy for PAE: everything that goes through the page tables is wrong from there on
+        return "ia32-pae-probe-ambiguous"
     if img.os == "xen" and img.desc.get("stubs"):
         for name, first, last, _ in img.regions:
             if name == "stubs" and obs_line.startswith("q ") and first <= int(obs_line.split()[1]) <= last:
@@ -716,6 +721,7 @@ def run(R):
             first = (err.strip().split("\n") or [""])
             why = next((l for l in first if "ERROR" in l or "runtime error" in l or "TIMEOUT" in l), first[0])
             fails = [("the harness did not survive the image (rc=%s): %s" % (rc, why.strip()[:200]), "crash")]
+        img.pgt_fmt = (st["meths"].get(0) or ["", ""])[1]
         for msg, o in fails:
             key = known_key(img, msg, o) if o != "crash" else None
             cls = ("fast-vs-hw" if "fast path gives" in msg else "fast-vs-image" if "KV->PHYS conversion gives" in msg else
